@@ -7,6 +7,7 @@ Facts extracted (each becomes a `Gen_*` obligation in coq/Proofs/C09Static.v):
                      (radicale/storage/**, radicale/pathutils.py)
   atomic_write_tmp   how CollectionBase._atomic_write names its temporary file
   write_sites        every function of storage/multifilesystem/*.py that opens a file for writing
+  lock_swallow_sites except clauses around the acquisition of the storage lock that do not re-raise
   shared_mutations   places in radicale/app/*.py (the objects shared by all serving threads) that assign to an
                      attribute of self outside __init__, or mutate / hand out a mutable object created in __init__
 Shapes the scanner does not understand are emitted as LUnknown / TmpOther so that the obligation fails (fail closed).
@@ -245,6 +246,34 @@ def shared_mutations(repo):
     return sorted(out)
 
 
+# ---------------------------------------------------------------- a failed lock acquisition must fail the request
+def lock_swallow_sites(repo):
+    """try statements of pathutils.RwLock.acquire / the storage's acquire_lock (both back-ends) whose body takes the lock
+    (calls .acquire / enter_context / flock / lock_file_ex / wait_for) and that have an except clause without `raise`."""
+    out = []
+    for rel in ("radicale/pathutils.py", "radicale/storage/multifilesystem/lock.py", "radicale/storage/multifilesystem_nolock.py"):
+        tree = ast.parse(open(os.path.join(repo, rel)).read())
+        for fn in ast.walk(tree):
+            if not isinstance(fn, (ast.FunctionDef, ast.AsyncFunctionDef)) or fn.name not in ("acquire", "acquire_lock", "_acquire_cache_lock"):
+                continue
+            for t in ast.walk(fn):
+                if not isinstance(t, ast.Try):
+                    continue
+                takes = False
+                for st in t.body:
+                    for c in ast.walk(st):
+                        if isinstance(c, ast.Call):
+                            name = (dotted(c.func) or "").split(".")[-1]
+                            if name in ("acquire", "enter_context", "flock", "lock_file_ex", "wait_for", "lockf"):
+                                takes = True
+                if not takes:
+                    continue
+                for h in t.handlers:
+                    if not any(isinstance(n, ast.Raise) for n in ast.walk(h)):
+                        out.append("%s:%s:line %d: except %s without raise" % (rel, fn.name, h.lineno, ast.unparse(h.type) if h.type else ""))
+    return sorted(out)
+
+
 def coq_list(l):
     return "[" + "; ".join(q(x) for x in l) + "]"
 
@@ -270,6 +299,8 @@ def generate(repo, outdir):
             "Definition write_sites : list string := %s." % coq_list(write_sites(repo)),
             "(* radicale/app: assignments to self.* outside __init__, mutation / handing out of mutable objects made in __init__ *)",
             "Definition shared_mutations : list string := %s." % coq_list(shared_mutations(repo)),
+            "(* except clauses that swallow a failed acquisition of the storage lock (the request would run unlocked) *)",
+            "Definition lock_swallow_sites : list string := %s." % coq_list(lock_swallow_sites(repo)),
             "",
         ]
         text = "\n".join(body)
@@ -278,7 +309,8 @@ def generate(repo, outdir):
         text = ("From Coq Require Import List String.\nImport ListNotations.\nRequire Import RV.Model.StaticFacts.\nOpen Scope string_scope.\n"
                 "Definition lock_path : lpath := LUnknown \"scanner crashed\".\nDefinition lock_unlink_sites : list string := [\"scanner crashed\"].\n"
                 "Definition atomic_write_tmp : tmpname := TmpOther.\nDefinition write_sites : list string := [\"scanner crashed\"].\n"
-                "Definition shared_mutations : list string := [\"scanner crashed\"].\n")
+                "Definition shared_mutations : list string := [\"scanner crashed\"].\n"
+                "Definition lock_swallow_sites : list string := [\"scanner crashed\"].\n")
     os.makedirs(outdir, exist_ok=True)
     p = os.path.join(outdir, "C09Static.v")
     old = open(p).read() if os.path.exists(p) else None
